@@ -16,6 +16,8 @@ import (
 	"strconv"
 	"strings"
 	"sync"
+	"sync/atomic"
+	"time"
 )
 
 func sortStrings(s []string) { sort.Strings(s) }
@@ -90,6 +92,17 @@ func main() {
 				// generate first, then execute with a worker pool (client/server ops sleep and wait on timers)
 				var ops []string
 				g(tier, rng, sh, nshards, func(op string) { ops = append(ops, op) })
+				// the operations are on disk before any of them runs: if one of them takes the whole process down (a loop
+				// that never ends and allocates, a fatal runtime error) the check finds it by executing them one process at a time
+				if of, err := os.Create(filepath.Join(outdir, fmt.Sprintf("shard-%02d.ops", sh))); err == nil {
+					ow := bufio.NewWriterSize(of, 1<<20)
+					for _, op := range ops {
+						ow.WriteString(op)
+						ow.WriteByte('\n')
+					}
+					ow.Flush()
+					of.Close()
+				}
 				results := make([]string, len(ops))
 				workers := 1
 				if len(ops) > 0 && (strings.HasPrefix(ops[0], "do ") || strings.HasPrefix(ops[0], "dor ") || strings.HasPrefix(ops[0], "asm ") || strings.HasPrefix(ops[0], "srv ") || strings.HasPrefix(ops[0], "conc ")) {
@@ -105,13 +118,26 @@ func main() {
 					}
 				}
 				var pw sync.WaitGroup
+				var slow int32
+				const skipped = "\x00skipped"
 				next := make(chan int, 1024)
 				for k := 0; k < workers; k++ {
 					pw.Add(1)
 					go func() {
 						defer pw.Done()
 						for i := range next {
+							// fail fast on a tree where operations hang: once four operations of this shard needed more than
+							// 45 s each (none does on a healthy tree), the rest of the shard is not executed - what was
+							// executed is judged, the number of dropped operations is recorded
+							if atomic.LoadInt32(&slow) >= 4 {
+								results[i] = skipped
+								continue
+							}
+							t0 := time.Now()
 							results[i] = execOp(ops[i])
+							if time.Since(t0) > 45*time.Second {
+								atomic.AddInt32(&slow, 1)
+							}
 						}
 					}()
 				}
@@ -120,7 +146,12 @@ func main() {
 				}
 				close(next)
 				pw.Wait()
+				dropped := 0
 				for i, op := range ops {
+					if results[i] == skipped {
+						dropped++
+						continue
+					}
 					w.WriteString(op)
 					w.WriteByte('\t')
 					w.WriteString(results[i])
@@ -128,6 +159,9 @@ func main() {
 				}
 				w.Flush()
 				f.Close()
+				if dropped > 0 {
+					_ = os.WriteFile(filepath.Join(outdir, fmt.Sprintf("shard-%02d.dropped", sh)), []byte(strconv.Itoa(dropped)), 0o644)
+				}
 			}(sh)
 		}
 		wg.Wait()
